@@ -9,6 +9,7 @@ import (
 	"fmt"
 	"io"
 	"log"
+	"sort"
 	"sync"
 	"testing/synctest"
 	"time"
@@ -133,13 +134,15 @@ type client struct {
 
 // world is one running router with its attached clients.
 type world struct {
-	r       router.Router
-	realm   string
-	clients map[int]*client
-	sidKey  map[wamp.ID]int
-	start   time.Time
-	quit    chan struct{}  // closed at shutdown: releases helper goroutines
-	helpers sync.WaitGroup // helper goroutines started by the harness inside the bubble
+	r         router.Router
+	realm     string
+	clients   map[int]*client
+	sidKey    map[wamp.ID]int
+	start     time.Time
+	lastSizes map[string]map[string]int
+	pubs      []wamp.ID      // publication ids of the PUBLISHED messages seen so far ({"$pub": j})
+	quit      chan struct{}  // closed at shutdown: releases helper goroutines
+	helpers   sync.WaitGroup // helper goroutines started by the harness inside the bubble
 }
 
 func realmConfig(w *world, cfg map[string]any) *router.RealmConfig {
@@ -223,6 +226,12 @@ func (w *world) toGo(v any) any {
 					return c.sid
 				}
 				return wamp.ID(4000000000 + num(k)) // an id that names no session
+			}
+			if j, ok := x["$pub"]; ok {
+				if i := int(num(j)); i < len(w.pubs) {
+					return w.pubs[i]
+				}
+				return wamp.ID(4100000000 + num(j)) // names no publication
 			}
 			if ms, ok := x["$ms"]; ok {
 				return w.start.Add(time.Duration(num(ms)) * time.Millisecond).Format(time.RFC3339Nano)
@@ -433,6 +442,9 @@ func (w *world) apply(op map[string]any) (out map[int][]wamp.Message, closed []i
 			}
 		}
 	case "rnd":
+	case "snapshot":
+		synctest.Wait()
+		w.lastSizes = w.snapshot()
 	}
 	synctest.Wait()
 	for key, c := range w.clients {
@@ -451,6 +463,18 @@ func (w *world) apply(op map[string]any) (out map[int][]wamp.Message, closed []i
 				out[key] = append(out[key], m)
 			default:
 				break drain
+			}
+		}
+	}
+	keys := make([]int, 0, len(out))
+	for k := range out {
+		keys = append(keys, k)
+	}
+	sort.Ints(keys)
+	for _, k := range keys {
+		for _, m := range out[k] {
+			if p, ok := m.(*wamp.Published); ok {
+				w.pubs = append(w.pubs, p.Publication)
 			}
 		}
 	}
